@@ -1683,6 +1683,133 @@ def translate_message_builder(header, cls):
     return res
 
 
+# ---- request_line / response_line / chunk_header / last_chunk ::to_string() ---------------------------------------------
+TO_STRING = [dict(name="request_line", header="via/http/request.hpp", strs=["method_", "uri_"]),
+             dict(name="response_line", header="via/http/response.hpp", strs=["reason_phrase_"]),
+             dict(name="chunk_header", header="via/http/chunk.hpp", strs=["hex_size_", "extension_"]),
+             dict(name="last_chunk", header="via/http/chunk.hpp", strs=["extension_", "trailer_string_"])]
+
+
+def translate_to_string(header, cls, strs):
+    """{ std::string output(e0); [if (!m.empty())] output += e1; ... return output; }  ->  M_Str.xstmt"""
+    with tempfile.TemporaryDirectory() as d:
+        tu = os.path.join(d, "tu.cpp")
+        with open(tu, "w") as f:
+            f.write('#include "%s"\n' % header)
+        p = subprocess.run(["clang++", "-std=c++17", "-I" + os.path.join(REPO, "include"), "-fsyntax-only",
+                            "-Xclang", "-ast-dump=json", "-Xclang", "-ast-dump-filter=" + cls, tu],
+                           stdout=subprocess.PIPE, stderr=subprocess.PIPE, text=True)
+        if p.returncode != 0:
+            raise Untranslatable("clang: " + p.stderr[-400:])
+        docs = load_docs(p.stdout)
+    fn = None
+    for dd in docs:
+        for n in walk(dd):
+            if n.get("kind") == "CXXRecordDecl" and n.get("name") == cls and fn is None:
+                for m in kids(n):
+                    if m.get("kind") == "CXXMethodDecl" and m.get("name") == "to_string" and any(c.get("kind") == "CompoundStmt" for c in kids(m)):
+                        fn = m
+    if fn is None:
+        raise Untranslatable("%s::to_string: no body found" % cls)
+    body = [c for c in kids(fn) if c.get("kind") == "CompoundStmt"][0]
+    what = "%s::to_string" % cls
+
+    def is_out(n):
+        n = strip(n)
+        return n.get("kind") == "DeclRefExpr" and n.get("referencedDecl", {}).get("name") == "output"
+
+    def this_member(n):
+        n = strip(n)
+        if n.get("kind") == "MemberExpr" and kids(n) and strip(kids(n)[0]).get("kind") == "CXXThisExpr":
+            return n.get("name")
+        return None
+
+    def unwrap(n):
+        n = strip(n)
+        while n.get("kind") in ("MaterializeTemporaryExpr", "CXXBindTemporaryExpr") and kids(n):
+            n = strip(kids(n)[0])
+        # a copy / move / const char* construction of a std::string from one argument
+        while n.get("kind") == "CXXConstructExpr" and len([a for a in kids(n) if a.get("kind") != "CXXDefaultArgExpr"]) == 1:
+            n = strip([a for a in kids(n) if a.get("kind") != "CXXDefaultArgExpr"][0])
+            while n.get("kind") in ("MaterializeTemporaryExpr", "CXXBindTemporaryExpr") and kids(n):
+                n = strip(kids(n)[0])
+        return n
+
+    def callee_name(n):
+        f = strip(kids(n)[0])
+        return f.get("referencedDecl", {}).get("name") if f.get("kind") == "DeclRefExpr" else None
+
+    def xexp(n):
+        n = unwrap(n)
+        k = n.get("kind")
+        m = this_member(n)
+        if m is not None:
+            if m not in strs:
+                raise Untranslatable("%s: member %s" % (what, m))
+            return "(XMem %d%%nat)" % strs.index(m)
+        if k == "CharacterLiteral":
+            v = n.get("value")
+            if not isinstance(v, int) or not 0 < v < 128:
+                raise Untranslatable("%s: a character literal" % what)
+            return "(XChr %d)" % v
+        if k == "StringLiteral":
+            v = n.get("value", "")
+            if len(v) < 2 or v[0] != '"' or v[-1] != '"' or "\\" in v[1:-1] or any(not 32 <= ord(ch) < 127 for ch in v[1:-1]):
+                raise Untranslatable("%s: a string literal" % what)
+            return "(XLit [%s])" % "; ".join(str(ord(ch)) for ch in v[1:-1])
+        if k == "DeclRefExpr" and n.get("referencedDecl", {}).get("name") == "CRLF":
+            return "XCrLf"
+        if k == "CXXOperatorCallExpr" and callee_name(n) == "operator+" and len(kids(n)) == 3:
+            return "(XCat %s %s)" % (xexp(kids(n)[1]), xexp(kids(n)[2]))
+        if k == "CallExpr" and callee_name(n) == "http_version" and [this_member(a) for a in kids(n)[1:]] == ["major_version_", "minor_version_"]:
+            return "XHttpVersion"
+        if k == "CallExpr" and callee_name(n) == "to_string" and [this_member(a) for a in kids(n)[1:]] == ["status_"]:
+            return "XStatusDec"
+        raise Untranslatable("%s: an expression (%s)" % (what, k))
+
+    def append(n):
+        n = strip(n)
+        if n.get("kind") == "CXXOperatorCallExpr" and callee_name(n) == "operator+=" and len(kids(n)) == 3 and is_out(kids(n)[1]):
+            return "(XAppend %s)" % xexp(kids(n)[2])
+        raise Untranslatable("%s: a statement" % what)
+
+    def not_empty(n):
+        n = strip(n)
+        if n.get("kind") == "UnaryOperator" and n.get("opcode") == "!":
+            fnm, obj, args = call_name(kids(n)[0])
+            if fnm == "empty" and obj is not None and not args and this_member(obj) in strs:
+                return strs.index(this_member(obj))
+        raise Untranslatable("%s: a condition" % what)
+
+    out = []
+    for stn in kids(body):
+        k = stn.get("kind")
+        if k == "DeclStmt":
+            v = kids(stn)[0]
+            if len(kids(stn)) != 1 or v.get("name") != "output" or out:
+                raise Untranslatable("%s: a declaration" % what)
+            out.append("(XInit %s)" % xexp(kids(v)[0]))
+        elif k == "IfStmt":
+            ks = kids(stn)
+            if len(ks) != 2:
+                raise Untranslatable("%s: if with else" % what)
+            t = ks[1]
+            t = kids(t)[0] if t.get("kind") == "CompoundStmt" and len(kids(t)) == 1 else t
+            out.append("(XIfNotEmpty %d%%nat %s)" % (not_empty(ks[0]), append(t)))
+        elif k == "ReturnStmt":
+            if not is_out(unwrap(kids(stn)[0])):
+                raise Untranslatable("%s: return" % what)
+            out.append("XReturn")
+        else:
+            out.append(append(stn))
+    if not out or not out[0].startswith("(XInit"):
+        raise Untranslatable("%s: no output variable" % what)
+    res = out[-1]
+    for x in reversed(out[:-1]):
+        res = "(XSeq %s %s)" % (x, res)
+    return res
+
+
 CLASSES = [
     dict(name="rl", cls="request_line", header="via/http/request.hpp", enum="Request", state="state_", param="c",
          strs=["method_", "uri_"], nums=["ws_count_", "major_version_", "minor_version_", "valid_", "fail_"],
@@ -1853,6 +1980,9 @@ def main(dest):
     lines.append("(* tx_response::message(content_length), tx_request::message(content_length) *)")
     lines.append("Definition tx_response_message_src : sstmt :=\n  %s." % translate_message_builder("via/http/response.hpp", "tx_response"))
     lines.append("Definition tx_request_message_src : sstmt :=\n  %s." % translate_message_builder("via/http/request.hpp", "tx_request"))
+    lines.append("(* request_line / response_line / chunk_header / last_chunk ::to_string() *)")
+    for t in TO_STRING:
+        lines.append("Definition %s_to_string_src : xstmt :=\n  %s." % (t["name"], translate_to_string(t["header"], t["name"], t["strs"])))
     txt = "\n".join(lines) + "\n"
     # unchanged output keeps its time stamp: make then has nothing to rebuild
     if not os.path.exists(dest) or open(dest).read() != txt:
